@@ -10,8 +10,8 @@ import subprocess
 from concurrent.futures import ThreadPoolExecutor
 
 TARGETS = ["text", "tokenizer", "keyval", "options", "path", "table", "dist", "interval", "formula", "numcalc"]
-RUNS = {"quick": 60000, "thorough": 3000000}
-ROUNDS = {"quick": 1, "thorough": 3}
+RUNS = {"quick": 60000, "thorough": 1500000}
+ROUNDS = {"quick": 1, "thorough": 2}
 
 
 def expand_seeds(verif, dest, target):
@@ -41,7 +41,7 @@ def fuzz_one(ctx, exe, target, runs, seed, workdir, corpus_root):
     env["FUZZ_TARGET"] = target
     cmd = [exe, "-runs=%d" % runs, "-max_len=4096", "-timeout=60", "-rss_limit_mb=2560", "-malloc_limit_mb=1024",
            "-dict=" + os.path.join(ctx["verif"], "fuzz", "dict.txt"), "-seed=%d" % seed, "-artifact_prefix=" + art,
-           "-print_final_stats=1", "-verbosity=1", "-reload=0", corpus, seeds]
+           "-print_final_stats=1", "-verbosity=1", "-reload=0", "-report_slow_units=100000", corpus, seeds]
     log = os.path.join(workdir, "fuzz-%s.log" % target)
     with open(log, "wb") as lf:
         import driver
@@ -89,8 +89,10 @@ def run(ctx):
                 stats[target] = st
                 total_exec += st["executions"] - prev.get("executions", 0)
                 for a in arts:
-                    data = open(a, "rb").read()
                     base = os.path.basename(a)
+                    if not (base.startswith("crash-") or base.startswith("timeout-") or base.startswith("oom-") or base.startswith("leak-")):
+                        continue   # e.g. slow-unit-*: a report, not a failure
+                    data = open(a, "rb").read()
                     keep = os.path.join(evid_replay, "C16-%s-%s" % (target, base))
                     shutil.copyfile(a, keep)
                     if base.startswith("timeout"):
